@@ -184,6 +184,7 @@ type Exec struct {
 	feasAlways bool
 	feasTag string
 	rub     []*rubCtx
+	curInstr ssa.Instruction
 	tracked    map[int]string
 	accesses   []AccessEvent
 	lockHook   Value
@@ -723,6 +724,7 @@ func (ex *Exec) run(st *State, fr *Frame, b *ssa.BasicBlock, stop *ssa.BasicBloc
 		}
 		var next *ssa.BasicBlock
 		for _, instr := range b.Instrs {
+			ex.curInstr = instr
 			ex.steps++
 			if ex.steps > ex.maxSteps {
 				panic(unsupported("step budget exceeded"))
